@@ -86,6 +86,11 @@ _bucket_get(Bucket *self, PyObject *keyarg, int has_key)
     int copied = 1;
 
     COPY_KEY_FROM_ARG(key, keyarg, copied);
+#ifdef KEY_CHECK_ON_SET
+    /* A key that could never have been stored cannot be present. */
+    if (copied && !KEY_CHECK_ON_SET(keyarg))
+        copied = 0;
+#endif
     UNLESS (copied)
     {
         if (has_key && PyErr_ExceptionMatches(PyExc_TypeError))
